@@ -45,6 +45,10 @@ func c18Body(r *Run) {
 	var timeout *time.Duration
 	if t.Chance(1, 3) {
 		d := time.Duration(50+t.Int(2000)) * time.Millisecond
+		if t.Chance(1, 2) {
+			// short time-outs that coincide with the handlers' durations (multiples of 10 ms): reply and time-out race
+			d = time.Duration(1+t.Int(4)) * 10 * time.Millisecond
+		}
 		timeout = &d
 	}
 	ps := gochannel.NewGoChannel(gochannel.Config{OutputChannelBuffer: int64(simrt.Pick(t, 0, 1, 3))}, nil)
@@ -73,7 +77,10 @@ func c18Body(r *Run) {
 	}
 	var callers []*c18Caller
 	for i := 0; i < nCallers; i++ {
-		c := &c18Caller{id: i, behaviour: t.Int(5)}
+		c := &c18Caller{id: i, behaviour: t.Int(7)}
+		if c.behaviour == 5 {
+			c.behaviour = 0
+		}
 		if timeout != nil && t.Chance(1, 4) {
 			c.behaviour = 5 // never reads and never cancels: only ListenForReplyTimeout ends the listener
 		}
@@ -89,7 +96,7 @@ func c18Body(r *Run) {
 	}
 	r.Describe("%d concurrent requests on one reply topic, AckCommandErrors=%v, ListenForReplyTimeout=%v, reply publisher fails on calls %v", nCallers, ackErrors, timeout, replyPub.FailAt)
 	for _, c := range callers {
-		r.Describe("caller %d: behaviour %d (0 SendWithReply, 1 drain then cancel, 2 read one then cancel, 3 never read then cancel, 4 cancel before reply, 5 never read, never cancel: time-out only), handler fails first %d (all=%v), handler takes %v, cancels after %v", c.id, c.behaviour, c.failFirst, c.failAll, c.delay, c.lateAfter)
+		r.Describe("caller %d: behaviour %d (0 SendWithReply, 1 drain then cancel, 2 read one then cancel, 3 never read then cancel, 4 cancel before reply, 5 never read, never cancel: time-out only, 6 let replies pile up, cancel, then read late), handler fails first %d (all=%v), handler takes %v, cancels after %v", c.id, c.behaviour, c.failFirst, c.failAll, c.delay, c.lateAfter)
 	}
 
 	rig := newRouterRig(r, 30*time.Second)
@@ -169,7 +176,11 @@ func c18Body(r *Run) {
 			}
 			for _, rp := range c.replies {
 				if rp.NotificationMessage == nil {
-					continue // time-out style reply
+					// time-out style reply: it has to say so
+					if rp.Error == nil {
+						r.Fail("C18.R1", "a caller got an empty reply: neither the handler's result nor an error", "%s", what)
+					}
+					continue
 				}
 				if rp.HandlerResult.Caller != c.id {
 					r.Fail("C18.R1", "a caller received the reply of another concurrent request", "%s got the result of caller %d", what, rp.HandlerResult.Caller)
@@ -279,6 +290,20 @@ func c18Body(r *Run) {
 					time.Sleep(c.lateAfter)
 					r.Fault("caller-cancel")
 					rcancel()
+				case 6:
+					r.Fault("caller-reads-late")
+					time.Sleep(c.lateAfter)
+					go func() {
+						r.Fault("caller-cancel")
+						rcancel()
+					}()
+					for k := 0; k < 3; k++ {
+						simrt.Yield()
+					}
+					for rp := range ch {
+						c.replies = append(c.replies, rp)
+					}
+					c.chClosed = true
 				case 5:
 					r.Fault("caller-never-reads-never-cancels")
 					_ = rcancel
